@@ -7,6 +7,7 @@ import (
 	"path/filepath"
 	"strings"
 	"testing"
+	"time"
 
 	"github.com/brutella/hc/accessory"
 	"github.com/brutella/hc/db"
@@ -50,11 +51,27 @@ type env struct {
 	l      *fixture.L2
 	tb     *fixture.TestBed
 	c      *fixture.L2Conn
+	tr      refctl.Transport                  // the connection under attack
+	newConn func() (refctl.Transport, func()) // a fresh connection to the same accessory
+	wipe    func()                            // removes all controller pairings
+	accLTPK []byte
+	shut    func()
+	wire    bool // wire level: a dropped connection is visible as such
+	dead    bool // the accessory announced "Connection: close" or closed the connection after a response
 	ctrl   *refctl.Controller
 	srp    *refctl.SRPClient   // after setup M2/M4
 	m2     refctl.SetupM2      // setup M2
 	vs     *refctl.VerifyState // after verify M2
 	prefix string
+}
+
+func wipeDir(dir, own string) {
+	ents, _ := filepath.Glob(filepath.Join(dir, "*.entity"))
+	for _, f := range ents {
+		if filepath.Base(f) != fmt.Sprintf("%x.entity", own) {
+			os.Remove(f)
+		}
+	}
 }
 
 func newEnv(prefix string, seed []byte) (*env, error) {
@@ -65,8 +82,56 @@ func newEnv(prefix string, seed []byte) (*env, error) {
 	}
 	l.Srv.Mux.Handle("/resource", endpoint.NewResource(l.Ctx, fixture.SnapshotFunc))
 	e := &env{l: l, tb: tb, c: l.NewConn(), ctrl: refctl.NewController("honest-controller", seed), prefix: prefix}
+	e.tr = e.c
+	e.accLTPK = l.Device.PublicKey()
+	e.newConn = func() (refctl.Transport, func()) { c := l.NewConn(); return c, c.Close }
+	e.wipe = func() { wipeDir(l.Dir, l.Device.Name()) }
+	e.shut = func() { e.c.Close(); l.Close() }
+	save := func() { l.DB.SaveEntity(db.NewEntity(e.ctrl.ID, e.ctrl.LTPK, nil)) }
+	return e, e.drive(seed, save)
+}
+
+// newEnvWire builds the same environment on a started transport (loopback TCP).
+func newEnvWire(prefix string, seed []byte) (*env, error) {
+	tb := fixture.NewTestBed("C13", 1)
+	dir := fixture.ScratchDir("c13w")
+	e := &env{tb: tb, ctrl: refctl.NewController("honest-controller", seed), prefix: prefix, wire: true}
+	d, _ := db.NewDatabase(dir)
+	d.SaveEntity(db.NewEntity(e.ctrl.ID, e.ctrl.LTPK, nil)) // paired through the database: no mDNS delay
+	acc, err := tb.Start(dir, "03145154", true)
+	if err != nil {
+		os.RemoveAll(dir)
+		return nil, fmt.Errorf("INFRA: %v", err)
+	}
+	ent, err := d.EntityWithName(acc.Txt()["id"])
+	if err != nil {
+		return nil, fmt.Errorf("INFRA: %v", err)
+	}
+	e.accLTPK = ent.PublicKey
+	cl, err := refctl.Dial(acc.Addr)
+	if err != nil {
+		return nil, fmt.Errorf("INFRA: %v", err)
+	}
+	cl.Timeout = 30 * time.Second
+	e.tr = cl
+	e.newConn = func() (refctl.Transport, func()) {
+		c, err := refctl.Dial(acc.Addr)
+		if err != nil {
+			return nil, func() {}
+		}
+		c.Timeout = 60 * time.Second
+		return c, func() { c.Close() }
+	}
+	e.wipe = func() { wipeDir(dir, acc.Txt()["id"]) }
+	e.shut = func() { cl.Close(); acc.StopAsync(); os.RemoveAll(dir) }
+	return e, e.drive(seed, func() {})
+}
+
+// drive runs the honest prefix that reaches the protocol state.
+func (e *env) drive(seed []byte, saveCtrl func()) error {
+	prefix := e.prefix
 	post := func(path string, body []byte) (*refctl.Response, error) {
-		return e.c.Do("POST", path, refctl.ContentTLV8, body)
+		return e.tr.Do("POST", path, refctl.ContentTLV8, body)
 	}
 	setupTo := func(stage int) error {
 		r, err := post("/pair-setup", refctl.SetupM1(0))
@@ -97,13 +162,13 @@ func newEnv(prefix string, seed []byte) (*env, error) {
 		return nil
 	}
 	verifyTo := func(stage int) error {
-		l.DB.SaveEntity(db.NewEntity(e.ctrl.ID, e.ctrl.LTPK, nil))
+		saveCtrl()
 		e.vs = refctl.NewVerifyState(append([]byte("v"), seed...))
 		r, err := post("/pair-verify", refctl.VerifyM1(e.vs.EphPublic))
 		if err != nil || r.Status != 200 {
 			return fmt.Errorf("honest prefix: verify M1: %v", err)
 		}
-		if _, err := e.vs.HandleVerifyM2(r.Body, l.Device.PublicKey()); err != nil {
+		if _, err := e.vs.HandleVerifyM2(r.Body, e.accLTPK); err != nil {
 			return err
 		}
 		if stage == 2 {
@@ -112,6 +177,9 @@ func newEnv(prefix string, seed []byte) (*env, error) {
 		r, err = post("/pair-verify", refctl.VerifyM3(e.vs.Key, e.vs.VerifyM3Plain(e.ctrl)))
 		if err != nil || r.Status != 200 {
 			return fmt.Errorf("honest prefix: verify M3: %v", err)
+		}
+		if cl, ok := e.tr.(*refctl.Client); ok {
+			cl.Secure(e.vs.Shared)
 		}
 		return nil
 	}
@@ -135,15 +203,12 @@ func newEnv(prefix string, seed []byte) (*env, error) {
 	}
 	if perr != nil {
 		e.close()
-		return nil, fmt.Errorf("INFRA: %v", perr)
+		return fmt.Errorf("INFRA: %v", perr)
 	}
-	return e, nil
+	return nil
 }
 
-func (e *env) close() {
-	e.c.Close()
-	e.l.Close()
-}
+func (e *env) close() { e.shut() }
 
 // honestNext returns the honest next pairing message for the state, for structure-aware mutation.
 func (e *env) honestNext(setup bool) []byte {
@@ -324,16 +389,7 @@ func genHostile(t *rapid.T, e *env) hostile {
 // recover: with the controller pairings wiped an honest handshake must work on a new
 // connection and, after at most one rejected start, on the same connection.
 func (e *env) recovery(seed []byte) error {
-	wipe := func() {
-		ents, _ := filepath.Glob(filepath.Join(e.l.Dir, "*.entity"))
-		own := fmt.Sprintf("%x.entity", e.l.Device.Name())
-		for _, f := range ents {
-			if filepath.Base(f) != own {
-				os.Remove(f)
-			}
-		}
-	}
-	handshake := func(c *fixture.L2Conn, ctrl *refctl.Controller, ent []byte, retries int) error {
+	handshake := func(c refctl.Transport, ctrl *refctl.Controller, ent []byte, retries int) error {
 		var lastErr error
 		for a := 0; a <= retries; a++ {
 			sr, err := refctl.PairSetup(c, ctrl, pin, ent)
@@ -356,29 +412,53 @@ func (e *env) recovery(seed []byte) error {
 		}
 		return lastErr
 	}
-	wipe()
-	nc := e.l.NewConn()
-	defer nc.Close()
+	e.wipe()
+	nc, closeNC := e.newConn()
+	if nc == nil {
+		return fmt.Errorf("afterwards the accessory no longer accepts connections")
+	}
+	defer closeNC()
 	if err := handshake(nc, refctl.NewController("recovery-new-conn", append([]byte("n"), seed...)), append([]byte("n"), seed...), 0); err != nil {
 		return fmt.Errorf("afterwards an honest handshake on a NEW connection fails: %v", err)
 	}
-	wipe()
-	if err := handshake(e.c, refctl.NewController("recovery-same-conn", append([]byte("s"), seed...)), append([]byte("s"), seed...), 1); err != nil {
+	if e.dead {
+		return nil // the accessory closed the attacked connection after answering (HTTP-level refusal)
+	}
+	if cl, ok := e.tr.(*refctl.Client); ok && cl.IsSecure() {
+		return nil // a verified connection is encrypted: pairing on it again is not part of the claim
+	}
+	e.wipe()
+	if err := handshake(e.tr, refctl.NewController("recovery-same-conn", append([]byte("s"), seed...)), append([]byte("s"), seed...), 1); err != nil {
 		return fmt.Errorf("afterwards an honest handshake on the SAME connection fails even after one rejected start: %v", err)
 	}
 	return nil
 }
 
 func deliver(e *env, h hostile) error {
-	r, err := e.c.Do(h.Method, h.Path, h.CType, h.Body)
+	if e.dead {
+		return nil
+	}
+	r, err := e.tr.Do(h.Method, h.Path, h.CType, h.Body)
 	if err != nil {
 		if pe, ok := err.(*fixture.PanicError); ok {
 			return fmt.Errorf("handler panicked: %v", pe.Value)
+		}
+		if e.wire {
+			if err == refctl.ErrClosed {
+				return fmt.Errorf("the accessory dropped the connection without a response")
+			}
+			if strings.Contains(err.Error(), "timed out") {
+				return fmt.Errorf("no response within 30 s: %v", err)
+			}
+			return fmt.Errorf("malformed response: %v", err)
 		}
 		return fmt.Errorf("INFRA: %v", err)
 	}
 	if r.Status < 100 || r.Status > 599 {
 		return fmt.Errorf("response with status %d", r.Status)
+	}
+	if strings.EqualFold(r.Header["connection"], "close") {
+		e.dead = true
 	}
 	return nil
 }
@@ -453,20 +533,79 @@ func TestC13Regress(t *testing.T) {
 		{"PUT /characteristics with an object value twice", "verified", hostile{"PUT", "/characteristics", refctl.ContentJSON, []byte(`{"characteristics":[{"aid":2,"iid":9,"value":{"a":[1]}},{"aid":2,"iid":9,"value":{"a":[1]}}]}`), "json"}},
 	}
 	for i, c := range cases {
-		e, err := newEnv(c.prefix, seed)
-		if err != nil {
-			fmt.Println("VERIF-INCONCLUSIVE:", err)
-			t.Fatal(err)
-		}
-		stats.Case(stats.Hash("regress", i), true, []string{"regress", "state:" + c.prefix}, func() interface{} { return map[string]interface{}{"what": c.what, "state": c.prefix, "request": c.h.String()} })
-		err = deliver(e, c.h)
-		if err == nil {
-			err = e.recovery(seed)
-		}
-		e.close()
-		if err != nil {
-			stats.Fail("TestC13Regress", err.Error(), c.what)
-			t.Errorf("%s: %v", c.what, err)
+		for _, wire := range []bool{false, true} {
+			mk := newEnv
+			level := "handler"
+			if wire {
+				mk, level = newEnvWire, "wire"
+			}
+			e, err := mk(c.prefix, seed)
+			if err != nil {
+				fmt.Println("VERIF-INCONCLUSIVE:", err)
+				t.Fatal(err)
+			}
+			stats.Case(stats.Hash("regress", i, wire), true, []string{"regress", "state:" + c.prefix}, func() interface{} {
+				return map[string]interface{}{"what": c.what, "level": level, "state": c.prefix, "request": c.h.String()}
+			})
+			err = deliver(e, c.h)
+			if err == nil && (!wire || i < 2) {
+				err = e.recovery(seed)
+			}
+			e.close()
+			if err != nil {
+				stats.Fail("TestC13Regress", err.Error(), c.what)
+				t.Errorf("%s (%s level): %v", c.what, level, err)
+			}
 		}
 	}
 }
+
+
+// TestC13Wire: the same hostile requests over loopback TCP against a started transport: every
+// request must receive a complete HTTP response (a dropped connection is a violation), and the
+// accessory must keep serving honest handshakes.
+func TestC13Wire(t *testing.T) {
+	wirePrefixes := []string{"fresh", "setup-after-M2", "setup-after-M4", "verify-after-M2", "verified", "verified+setup-after-M2"}
+	rapid.Check(t, func(t *rapid.T) {
+		prefix := rapid.SampledFrom(wirePrefixes).Draw(t, "prefix")
+		seed := rapid.SliceOfN(rapid.Byte(), 16, 16).Draw(t, "seed")
+		e, err := newEnvWire(prefix, seed)
+		if err != nil {
+			t.Skipf("%v", err)
+		}
+		defer e.close()
+		n := rapid.IntRange(1, 3).Draw(t, "nhostile")
+		var hs []hostile
+		var cls []string
+		for i := 0; i < n; i++ {
+			h := genHostile(t, e)
+			if h.Kind == "odd-method" && (h.Method == "HEAD") {
+				h.Method = "DELETE" // HEAD responses have no body by definition; nothing to judge
+			}
+			hs = append(hs, h)
+			cls = append(cls, "wire-state:"+prefix, "wire-endpoint:"+strings.SplitN(h.Path, "?", 2)[0], "wire-kind:"+h.Kind)
+		}
+		stats.Case(stats.Hash("wire", prefix, seed, fmt.Sprint(hs)), prefix != "fresh", dedup(cls), func() interface{} {
+			var ss []string
+			for _, h := range hs {
+				ss = append(ss, h.String())
+			}
+			return map[string]interface{}{"level": "wire", "state": prefix, "hostile_requests": ss}
+		})
+		for i, h := range hs {
+			if err := deliver(e, h); err != nil {
+				if strings.HasPrefix(err.Error(), "INFRA") {
+					t.Skipf("%v", err)
+				}
+				t.Fatalf("wire level, state %s, hostile request %d %v: %v", prefix, i, h, err)
+			}
+		}
+		if rapid.IntRange(0, 3).Draw(t, "recover") == 0 { // each recovery handshake costs > 1 s (mDNS), so not every case
+			if err := e.recovery(seed); err != nil {
+				t.Fatalf("wire level, state %s after %v: %v", prefix, hs, err)
+			}
+		}
+	})
+}
+
+func dbEntity(c *refctl.Controller) db.Entity { return db.NewEntity(c.ID, c.LTPK, nil) }
